@@ -1055,3 +1055,86 @@ Proof.
   destruct (progress_to_dist_range lens pb Fpb Hpb FL ZL UL') as (Fb & Hb).
   exact (global_lipschitz_search_ieee path Hc Hs Hn Ht40 M HM HM0 a b Fa Fb Ha Hb).
 Qed.
+
+(* ---------- the example polyline, through the search ---------- *)
+
+Lemma ex_path_hyps40 : poly_len (map R2 ex_path) <= pw 40 /\ coords_le 16 ex_path.
+Proof.
+  destruct ex_R2 as (E1 & E2). pose proof ex_R2_0 as E0. split.
+  - unfold ex_path. cbn [map]. rewrite E0, E1, E2.
+    apply Rle_trans with 18; [right; exact (proj2 cumlen_example)|].
+    apply Rle_trans with (pw 5); [cbn; lra|apply bpow_le; lia].
+  - unfold coords_le, ex_path, ex_p0, ex_p1, ex_p2.
+    repeat (apply Forall_cons; [cbn [px py]|]); [| | |apply Forall_nil].
+    + rewrite (proj2 (S_ofZ 0 ltac:(lia))), Rabs_R0. split; lra.
+    + rewrite (proj2 (S_ofZ 3 ltac:(lia))), (proj2 (S_ofZ 4 ltac:(lia))), (Rabs_pos_eq 3), (Rabs_pos_eq 4) by lra. split; lra.
+    + rewrite (proj2 (S_ofZ 8 ltac:(lia))), (proj2 (S_ofZ 16 ltac:(lia))), (Rabs_pos_eq 8), (Rabs_pos_eq 16) by lra. split; lra.
+Qed.
+
+(* position_at (lengths[1] / dist) on the lengths calculate_length computes is
+   the vertex (3, 4) up to 6.8e-6 per coordinate, and position_at 0 /
+   position_at 1 are at most 18.0001 apart (the curve is 18 long) *)
+Example ex_search_theorems :
+  (forall lj, nth_error (natural ex_path D.zero) 1 = Some lj ->
+     exists q, position_at ex_path (natural ex_path D.zero) (D.div lj (Curve.dist (natural ex_path D.zero))) = Done q /\
+       Rabs (B2R (px q) - 3) <= 6.8 / 1000000 /\ Rabs (B2R (py q) - 4) <= 6.8 / 1000000) /\
+  (exists qa qb, position_at ex_path (natural ex_path D.zero) (D.of_Z 0) = Done qa /\
+     position_at ex_path (natural ex_path D.zero) (D.of_Z 1) = Done qb /\
+     edist (R2 qa) (R2 qb) <= 18 + 1 / 10000).
+Proof.
+  destruct ex_path_hyps as (Hc & Hs & Hn & _). destruct ex_path_hyps40 as (Ht & HM).
+  destruct ex_R2 as (E1 & E2). pose proof ex_R2_0 as E0.
+  assert (Hcum : cumlen (map R2 ex_path) = [0; 5; 18]).
+  { unfold ex_path. cbn [map]. rewrite E0, E1, E2. exact (proj1 cumlen_example). }
+  assert (Hl : exists l0 l1 l2, natural ex_path D.zero = [l0; l1; l2]).
+  { pose proof ex_lens_are_natural as N.
+    destruct (natural ex_path D.zero) as [|x0 [|x1 [|x2 [|x3 r]]]]; try discriminate N.
+    exists x0, x1, x2. reflexivity. }
+  destruct Hl as (l0 & l1 & l2 & Hl).
+  pose proof (natural_lengths_error ex_path Hc Hs Hn (Ht1000 _ Ht)) as Hok.
+  change (length ex_path) with 3%nat in Hok.
+  assert (A3 : alpha 3 <= 1.8 / 10000000).
+  { unfold alpha, u32, u64. change (INR 3) with (1 + 1 + 1). lra. }
+  destruct (lens_ok_nth _ _ _ 1%nat l1 5 Hok ltac:(rewrite Hl; reflexivity) ltac:(rewrite Hcum; reflexivity)) as (F1 & (x1 & X1 & B1)).
+  destruct (lens_ok_nth _ _ _ 2%nat l2 18 Hok ltac:(rewrite Hl; reflexivity) ltac:(rewrite Hcum; reflexivity)) as (F2 & (x2 & X2 & B2)).
+  apply Rabs_le_inv in B1. apply Rabs_le_inv in B2.
+  assert (R1 : 5 - 1 / 1000000 <= B2R l1 <= 5 + 1 / 1000000) by (rewrite X1; nra).
+  assert (R2' : 18 - 4 / 1000000 <= B2R l2 <= 18 + 4 / 1000000) by (rewrite X2; nra).
+  assert (EL : Curve.dist (natural ex_path D.zero) = l2) by (rewrite Hl; reflexivity).
+  assert (P125 : pw (-125) <= / 1000000000000).
+  { apply Rle_trans with (pw (-40)); [apply bpow_le; lia|cbn; lra]. }
+  assert (EM : E19max 16 <= 6.7 / 1000000) by (unfold E19max, u32; lra).
+  split.
+  - intros lj Hlj. rewrite Hl in Hlj. cbn in Hlj. inversion Hlj; subst lj.
+    destruct (vertex_fraction_position_ieee ex_path Hc Hs Hn Ht 16 HM ltac:(lra) 1%nat ex_p1 l1 eq_refl
+                ltac:(rewrite Hl; reflexivity) ltac:(lra)) as (q & Hq & Bx & By).
+    exists q. split; [exact Hq|].
+    unfold ex_p1 in Bx, By. cbn [px py] in Bx, By.
+    rewrite (proj2 (S_ofZ 3 ltac:(lia))) in Bx. rewrite (proj2 (S_ofZ 4 ltac:(lia))) in By.
+    rewrite EL in Bx, By. change (length ex_path) with 3%nat in Bx, By. change (INR 3) with (1 + 1 + 1) in Bx, By.
+    assert (Pe : eta64 <= / 100000000000000).
+    { unfold eta64. apply Rle_trans with (pw (-60)); [apply bpow_le; lia|cbn; lra]. }
+    pose proof eta64_pos as Pe0.
+    assert (DF : Dfrac (B2R l1) (B2R l2) <= / 1000000000000).
+    { unfold Dfrac, u64. nra. }
+    assert (DF0 : 0 <= Dfrac (B2R l1) (B2R l2)) by (unfold Dfrac, u64; nra).
+    assert (T : (1 + delta19) * Dfrac (B2R l1) (B2R l2) + (1 + 1 + 1) * eta19 * B2R l2 + E19max 16 <= 6.8 / 1000000).
+    { unfold delta19, eta19, u32, u64 in *. nra. }
+    split; lra.
+  - destruct (D_ofZ 0 ltac:(lia)) as (Fa & Ra). destruct (D_ofZ 1 ltac:(lia)) as (Fb & Rb).
+    destruct (global_lipschitz_position_at_ieee ex_path 16 (D.of_Z 0) (D.of_Z 1) Hc Hs Hn Ht HM ltac:(lra)
+                Fa Fb ltac:(rewrite Ra; lra) ltac:(rewrite Rb; lra)) as (qa & qb & Hqa & Hqb & _ & _ & Be).
+    exists qa, qb. split; [exact Hqa|]. split; [exact Hqb|].
+    eapply Rle_trans; [exact Be|]. rewrite EL. change (length ex_path) with 3%nat. change (INR 3) with (1 + 1 + 1).
+    destruct (dist_bounds ex_path Hc Hs Hn Ht) as (FL & ZL & UL). rewrite EL in FL, ZL, UL.
+    assert (UL' : B2R l2 <= pw 1023) by (eapply Rle_trans; [exact UL|apply bpow_le; lia]).
+    destruct (progress_to_dist_range (natural ex_path D.zero) (D.of_Z 0) Fa ltac:(rewrite Ra; lra)
+                ltac:(rewrite EL; exact FL) ltac:(rewrite EL; exact ZL) ltac:(rewrite EL; exact UL')) as (_ & Ha).
+    destruct (progress_to_dist_range (natural ex_path D.zero) (D.of_Z 1) Fb ltac:(rewrite Rb; lra)
+                ltac:(rewrite EL; exact FL) ltac:(rewrite EL; exact ZL) ltac:(rewrite EL; exact UL')) as (_ & Hb).
+    rewrite EL in Ha, Hb.
+    set (a := progress_to_dist (natural ex_path D.zero) (D.of_Z 0)) in *.
+    set (b := progress_to_dist (natural ex_path D.zero) (D.of_Z 1)) in *.
+    assert (Hab : Rabs (B2R b - B2R a) <= B2R l2) by (apply Rabs_le; lra).
+    unfold delta19, eta19, u32, u64 in *. nra.
+Qed.
